@@ -237,6 +237,14 @@ theorem C19_filter_keep_weight {κ ω : Type} [DecidableEq κ] [AddCommMonoid ω
     rw [hs]
     exact foldl_removeNode_keep_w_unweighted ops hlaw R c hwf hw
 
+/-- `filter_hypergraph` returns: in the model with rejections (`remove_node` raises on an absent node, `remove_edge`
+on an absent key) no call made by the filter is rejected, and the result is the one characterised above.
+(Exceptions of other kinds - the `TypeError`s of D12/D15 - are outside the model; the harness observes them.) -/
+theorem C19_filter_returns {κ ω : Type} [DecidableEq κ] [Add ω] (ops : KeyOps κ) (hlaw : Lawful ops)
+    (c : Content κ ω) (hwf : WF ops c) (nc ec : Option Crit) (mode : Mode) (keepEdges : Bool) :
+    filterHg? ops c nc ec mode keepEdges = some (filterHg ops c nc ec mode keepEdges) :=
+  filterHg?_eq ops hlaw c hwf nc ec mode keepEdges
+
 /-! #### non-vacuity: a weighted `Hypergraph` with a shrink-merge, both modes -/
 
 /-- nodes 1 (type=1), 2 (type=2), 3 (no metadata); hyperedges (1,2,3):2, (1,3):1, (2):4 -/
@@ -251,6 +259,10 @@ example := C19_filter_keep opsH C19_lawful_H C19.exampleContent ⟨by decide, by
   (some [(0, [some 1, none])]) (some [(5, [some 1])]) .keep
 example := (C19_filter_keep_weight opsH C19_lawful_H C19.exampleContent ⟨by decide, by decide, by decide⟩
   (some [(0, [some 1, none])]) .keep).1 rfl
+/-- the rejections are real: an absent node / key is refused -/
+example : (removeNode? opsH true C19.exampleContent 7).isNone ∧
+    (removeEdge? C19.exampleContent ([1, 2], [])).isNone ∧
+    (removeEdge? C19.exampleContent ([1, 3], [])).isSome := by decide
 example : removedNodes C19.exampleContent (some [(0, [some 1, none])]) .keep = [2] := by decide
 example : shrinkAll opsH [2] ([1, 2, 3], []) = some ([1, 3], []) ∧ shrinkAll opsT [2] ([2], [0]) = none ∧
     shrinkAll opsD [2] ([1, 2], [3]) = some ([1], [3]) ∧ shrinkAll opsD [2] ([1], [2]) = none := by decide
